@@ -6,6 +6,7 @@ package gen
 
 import (
 	"fmt"
+	"google.golang.org/protobuf/types/known/timestamppb"
 	"sort"
 	"time"
 
@@ -19,7 +20,6 @@ import (
 	"github.com/hashicorp/consul/zzverif/core"
 	"github.com/hashicorp/serf/coordinate"
 )
-
 
 type Cmd struct {
 	Type  structs.MessageType `json:"type"`
@@ -39,6 +39,7 @@ func AllWeights() Weights {
 func CatalogWeights() Weights {
 	return Weights{Catalog: 40, KV: 2, Session: 4, Txn: 8, Config: 22, SysMeta: 3, VIP: 2, Peering: 2, Intention: 3}
 }
+
 // IntentionWeights: mostly intention mutations (by-name upserts and deletes on entries that
 // accumulate several sources) plus some config entries and catalog traffic
 func IntentionWeights() Weights {
@@ -67,13 +68,16 @@ type G struct {
 	NodeIDList []types.NodeID
 	// Focus: choose references (session checks, lock holders) by peeking at the store so that
 	// most session / lock commands are accepted (used by the session/lock monitor)
-	Focus    bool
-	peek     *state.Store
-	R        *core.Rand
-	W        Weights
-	sessSeq  int
-	Sessions []string // session IDs ever created (for references)
-	idSeq    int
+	Focus bool
+	// EmptyStatus: some checks are written without a Status (the store then stores them as critical).
+	// Off by default so that the command streams of monitors that do not ask for it stay as they are.
+	EmptyStatus bool
+	peek        *state.Store
+	R           *core.Rand
+	W           Weights
+	sessSeq     int
+	Sessions    []string // session IDs ever created (for references)
+	idSeq       int
 }
 
 func New(r *core.Rand, w Weights) *G {
@@ -96,10 +100,12 @@ var DCs = []string{"dc1", "dc2"}
 
 func uuid(n int) string { return fmt.Sprintf("%08x-aaaa-bbbb-cccc-%012x", n, n) }
 
-func (g *G) node() string   { return core.Pick(g.R, g.NodeNames) }
-func (g *G) svc() string    { return core.Pick(g.R, Services) }
-func (g *G) peer() string   { return core.Pick(g.R, Peers) }
-func (g *G) status() string { return core.Pick(g.R, []string{api.HealthPassing, api.HealthPassing, api.HealthWarning, api.HealthCritical}) }
+func (g *G) node() string { return core.Pick(g.R, g.NodeNames) }
+func (g *G) svc() string  { return core.Pick(g.R, Services) }
+func (g *G) peer() string { return core.Pick(g.R, Peers) }
+func (g *G) status() string {
+	return core.Pick(g.R, []string{api.HealthPassing, api.HealthPassing, api.HealthWarning, api.HealthCritical})
+}
 
 func enc(t structs.MessageType, v any) []byte {
 	b, err := structs.Encode(t, v)
@@ -204,7 +210,13 @@ func (g *G) check(node string, svc *structs.NodeService, peer string) *structs.H
 			e := cs[r.Intn(len(cs))]
 			c.CheckID, c.ServiceID, c.ServiceName, c.Type = e.CheckID, e.ServiceID, e.ServiceName, e.Type
 			c.Status = core.Pick(r, []string{api.HealthCritical, api.HealthCritical, api.HealthWarning, api.HealthPassing})
+			if g.EmptyStatus && r.Chance(25) {
+				c.Status = "" // the store defaults a missing status to critical
+			}
 		}
+	}
+	if g.EmptyStatus && r.Chance(8) {
+		c.Status = ""
 	}
 	return c
 }
@@ -1047,7 +1059,6 @@ func (g *G) Next(s *state.Store, idx uint64) Cmd {
 	return g.Register()
 }
 
-
 // VIPPrelude returns the system-metadata writes that switch on virtual-IP allocation (what a
 // leader does once all servers support it).
 func VIPPrelude() []Cmd {
@@ -1125,6 +1136,158 @@ func GatewayShrinkScenario(r *core.Rand) []Cmd {
 		write(keep)
 		cur = append(append([]string{}, keep...), fresh(5-len(keep))...)
 		write(cur)
+	}
+	return out
+}
+
+// PeeringSecretsScenario: the life cycle of the secrets of an accepting-side peering, as the peering
+// endpoints drive it: token generated (establishment secret E1), exchanged for a pending stream secret
+// S1, S1 promoted to active, then a ROTATION: a new token (E2), exchanged for pending S2 while S1 is
+// still active - at that point (returned as `mid`) the peering holds a pending AND an active stream
+// secret - then S2 promoted, and finally the peering marked for deletion and deleted.
+func PeeringSecretsScenario() (cmds []Cmd, mid int) {
+	id := peerIDs["peerA"]
+	e1, s1, e2, s2 := uuid(9201), uuid(9202), uuid(9203), uuid(9204)
+	sec := func(class string, req *pbpeering.SecretsWriteRequest) Cmd {
+		return Cmd{Type: structs.PeeringSecretsWriteType, Class: "peering:secrets:" + class, Desc: "peering:secrets:" + class + " " + core.JSON(req), Bytes: encPB(structs.PeeringSecretsWriteType, req)}
+	}
+	gen := func(e string) *pbpeering.SecretsWriteRequest {
+		return &pbpeering.SecretsWriteRequest{PeerID: id, Request: &pbpeering.SecretsWriteRequest_GenerateToken{GenerateToken: &pbpeering.SecretsWriteRequest_GenerateTokenRequest{EstablishmentSecret: e}}}
+	}
+	exch := func(e, s string) *pbpeering.SecretsWriteRequest {
+		return &pbpeering.SecretsWriteRequest{PeerID: id, Request: &pbpeering.SecretsWriteRequest_ExchangeSecret{ExchangeSecret: &pbpeering.SecretsWriteRequest_ExchangeSecretRequest{EstablishmentSecret: e, PendingStreamSecret: s}}}
+	}
+	promote := func(s string) *pbpeering.SecretsWriteRequest {
+		return &pbpeering.SecretsWriteRequest{PeerID: id, Request: &pbpeering.SecretsWriteRequest_PromotePending{PromotePending: &pbpeering.SecretsWriteRequest_PromotePendingRequest{ActiveStreamSecret: s}}}
+	}
+	pw := func(state pbpeering.PeeringState, secrets *pbpeering.SecretsWriteRequest) Cmd {
+		req := &pbpeering.PeeringWriteRequest{Peering: &pbpeering.Peering{ID: id, Name: "peerA", State: state}, SecretsRequest: secrets}
+		if state == pbpeering.PeeringState_DELETING {
+			req.Peering.DeletedAt = timestamppb.New(time.Unix(1600000000, 0))
+		}
+		return Cmd{Type: structs.PeeringWriteType, Class: "peering:write", Desc: "peering:write " + core.JSON(req), Bytes: encPB(structs.PeeringWriteType, req)}
+	}
+	cmds = []Cmd{
+		pw(pbpeering.PeeringState_PENDING, gen(e1)),
+		sec("exchange", exch(e1, s1)),
+		sec("promote", promote(s1)),
+		sec("generate", gen(e2)),
+		sec("exchange", exch(e2, s2)),
+	}
+	mid = len(cmds)
+	del := &pbpeering.PeeringDeleteRequest{Name: "peerA"}
+	cmds = append(cmds,
+		sec("promote", promote(s2)),
+		pw(pbpeering.PeeringState_DELETING, nil),
+		Cmd{Type: structs.PeeringDeleteType, Class: "peering:delete", Desc: "peering:delete peerA", Bytes: encPB(structs.PeeringDeleteType, del)},
+	)
+	return cmds, mid
+}
+
+// TokenExpiryScenario: a token whose expiration time lies `in` from NOW (wall clock of the moment the
+// log is generated) is created and then updated several times. The replica that generates the log
+// applies it at once (before the expiry); replicas that apply the same bytes later do so after the
+// token has expired. What an already committed command does must not depend on that.
+// (The only wall-clock dependent INPUT of a generated log; no verdict depends on the clock.)
+func TokenExpiryScenario(in time.Duration) []Cmd {
+	exp := time.Now().Add(in).UTC()
+	mkTok := func(desc string, pol bool) Cmd {
+		t := &structs.ACLToken{AccessorID: uuid(9301), SecretID: uuid(9302), Description: desc, ExpirationTime: &exp, CreateTime: time.Unix(1_600_000_000, 0).UTC()}
+		if pol {
+			t.ServiceIdentities = []*structs.ACLServiceIdentity{{ServiceName: "web"}}
+		}
+		t.SetHash(true)
+		req := structs.ACLTokenBatchSetRequest{Tokens: structs.ACLTokens{t}}
+		return mk(structs.ACLTokenSetRequestType, "acl:token-set", &req)
+	}
+	del := structs.ACLTokenBatchDeleteRequest{TokenIDs: []string{uuid(9301)}}
+	return []Cmd{mkTok("created", false), mkTok("updated before expiry", false), mkTok("identity added", true), mk(structs.ACLTokenDeleteRequestType, "acl:token-delete", &del), mkTok("re-created", false)}
+}
+
+// GatewayOrderScenario: a short PRNG sequence over a tiny universe that varies the ORDER of the writes
+// the gateway-services table is derived from: service-defaults (with / without a destination) before or
+// after the gateway entry, gateway entries that list a service on its own (with TLS / hosts settings)
+// before or after a wildcard in the same entry, instances (plain / connect-native / sidecar) registered
+// before or after, and removals of each. The derived table must not depend on that order.
+func GatewayOrderScenario(r *core.Rand) []Cmd {
+	out := VIPPrelude()
+	names := []string{"web", "ext"}
+	cfg := func(op structs.ConfigEntryOp, e structs.ConfigEntry) {
+		if err := e.Normalize(); err != nil {
+			return
+		}
+		if err := e.Validate(); err != nil {
+			return
+		}
+		req := structs.ConfigEntryRequest{Datacenter: "dc1", Op: op, Entry: e}
+		out = append(out, Cmd{Type: structs.ConfigEntryRequestType, Class: "config:" + string(op) + ":" + e.GetKind(), Desc: fmt.Sprintf("config:%s %s/%s %s", op, e.GetKind(), e.GetName(), core.JSON(e)), Bytes: enc(structs.ConfigEntryRequestType, &req)})
+	}
+	n := 10 + r.Intn(8)
+	for i := 0; i < n; i++ {
+		x := core.Pick(r, names)
+		switch r.Intn(9) {
+		case 0, 1:
+			e := &structs.ServiceConfigEntry{Kind: structs.ServiceDefaults, Name: x, Protocol: "tcp"}
+			if r.Chance(65) {
+				e.Destination = &structs.DestinationConfig{Addresses: []string{"example.com"}, Port: 443}
+			}
+			cfg(structs.ConfigEntryUpsert, e)
+		case 2:
+			cfg(structs.ConfigEntryDelete, &structs.ServiceConfigEntry{Kind: structs.ServiceDefaults, Name: x})
+		case 3, 4:
+			own := structs.LinkedService{Name: x, CAFile: "/etc/" + x + "/ca.pem", SNI: x + ".example.com"}
+			wild := structs.LinkedService{Name: "*"}
+			if r.Chance(30) {
+				wild.CAFile = "/etc/wild/ca.pem"
+			}
+			e := &structs.TerminatingGatewayConfigEntry{Kind: structs.TerminatingGateway, Name: "tgw"}
+			switch r.Intn(5) {
+			case 0:
+				e.Services = []structs.LinkedService{own}
+			case 1:
+				e.Services = []structs.LinkedService{wild}
+			case 2:
+				e.Services = []structs.LinkedService{own, wild}
+			case 3:
+				e.Services = []structs.LinkedService{wild, own}
+			default:
+				e.Services = []structs.LinkedService{{Name: names[0], SNI: "a.example.com"}, wild, {Name: names[1]}}
+			}
+			cfg(structs.ConfigEntryUpsert, e)
+		case 5:
+			own := structs.IngressService{Name: x, Hosts: []string{x + ".ingress.example"}}
+			wild := structs.IngressService{Name: "*"}
+			l := structs.IngressListener{Port: 8080, Protocol: "http"}
+			switch r.Intn(4) {
+			case 0:
+				l.Services = []structs.IngressService{own}
+			case 1:
+				l.Services = []structs.IngressService{wild}
+			case 2:
+				l.Services = []structs.IngressService{own, wild}
+			default:
+				l.Services = []structs.IngressService{wild, own}
+			}
+			cfg(structs.ConfigEntryUpsert, &structs.ProxyConfigEntry{Kind: structs.ProxyDefaults, Name: structs.ProxyConfigGlobal, Config: map[string]interface{}{"protocol": "http"}})
+			cfg(structs.ConfigEntryUpsert, &structs.IngressGatewayConfigEntry{Kind: structs.IngressGateway, Name: "igw", Listeners: []structs.IngressListener{l}})
+		case 6, 7:
+			ns := &structs.NodeService{ID: x, Service: x, Port: 8000}
+			switch r.Intn(3) {
+			case 0:
+				ns.Connect.Native = true
+			case 1:
+				ns = &structs.NodeService{Kind: structs.ServiceKindConnectProxy, ID: x + "-sidecar-proxy", Service: x + "-sidecar-proxy", Port: 8001, Proxy: structs.ConnectProxyConfig{DestinationServiceName: x, DestinationServiceID: x}}
+			}
+			reg := structs.RegisterRequest{Datacenter: "dc1", Node: "n1", Address: "10.0.0.1", Service: ns}
+			out = append(out, mk(structs.RegisterRequestType, "register", &reg))
+		default:
+			id := x
+			if r.Chance(40) {
+				id = x + "-sidecar-proxy"
+			}
+			dr := structs.DeregisterRequest{Datacenter: "dc1", Node: "n1", ServiceID: id}
+			out = append(out, mk(structs.DeregisterRequestType, "deregister:service", &dr))
+		}
 	}
 	return out
 }
